@@ -532,6 +532,30 @@ func ruleSuffixBitsReported(c *Ctx) {
 			c.Check(derivesFrom(st.Val, same(width), 3), rule, "SuffixBits reported by "+fnName(fn), "is the width that was used to shift the logical part", P.instrPos(st), "reported width differs from the shift width")
 		}
 	}
+	// generateTSO hands out the raw logical value only when there is nothing to differentiate with (no suffix width, or
+	// an allocator without a suffix); otherwise the value it returns was differentiated
+	genFn := P.Method(tso, "timestampOracle", "generateTSO")
+	suffixF := P.Field(tso, "timestampOracle", "suffix")
+	var bitsP ssa.Value
+	if len(genFn.Params) >= 3 {
+		bitsP = genFn.Params[2]
+	}
+	diffDone := &calledEv{name: "the logical part was differentiated", match: func(x ssa.Instruction) bool {
+		v, ok := x.(ssa.Value)
+		return ok && isDiff(v)
+	}}
+	noWidth := guardRel("suffixBits <= 0", "<= <", same(bitsP), isConstInt(0))
+	noSuffix := guardRel("suffix < 0", "<", loadOfField(suffixF), isConstInt(0))
+	physF := P.Field(tso, "timestampOracle", "tsoMux")
+	_ = physF
+	c.need(rule, genFn, "return of a generated timestamp", func(x ssa.Instruction) bool {
+		r, ok := x.(*ssa.Return)
+		if !ok || len(r.Results) < 2 {
+			return false
+		}
+		k, isC := constInt(spilledResult(r, 1))
+		return !(isC && k == 0) // not the "not initialised" answer
+	}, []Ev{diffDone, noWidth, noSuffix}, anyOf, "with a suffix width and a suffix the logical part returned is raw<<width + suffix: timestamps of different allocators never coincide")
 	// differentiation = raw << bits + suffix of this allocator, in the helper or in place
 	suffix := P.Field(tso, "timestampOracle", "suffix")
 	okShape := false
